@@ -516,6 +516,19 @@ def check(res, tier, seed):
                 monitor_hits += 1
                 res.violation("closures:" + re.sub(r"\d+", "N", vs[0])[:50], "implementation violates %s: %s" % (pid, vs[0]),
                               dict(kind="sys", family=r["family"], config=r["config"], seed=r["seed"], all=vs[:8]))
+    if pid in ("C14", "C15"):
+        # links whose context ends very early: cancelled before Link is called / from inside the connect notification
+        ne = 6 if tier == "quick" else 60
+        erecs, erc, eout = C.run_job(binary, wd, "earlycancel", dict(family="sys", seed=seed, n=ne, cases=["earlycancel"]), timeout=400)
+        fam["earlycancel(black-box)"] = len(erecs)
+        for r in erecs:
+            vs = list(r.get("notes") or [])
+            if r.get("hang"):
+                vs = vs or ["the early-cancel scenario did not finish"]
+            if vs:
+                monitor_hits += 1
+                res.violation("earlycancel:" + re.sub(r"\d+", "N", vs[0])[:50], "implementation violates %s: %s: %s" % (pid, r["config"], vs[0]),
+                              dict(kind="sys", family="earlycancel", config=r["config"], seed=r["seed"], all=vs[:8], events=[e for e in (r.get("events") or []) if e.get("kind") == "hook"]))
     if pid == "C15":
         # black-box over whole link lifecycles: nothing started inside panrpc still runs, nothing derived inside
         # panrpc still hangs off the application's context, after every link has been torn down
